@@ -220,6 +220,49 @@ class LoopRun:
     def exit(self, env):
         self.spec.exit(self, env)
 
+    def havoc_frame(self, env, mods, inplace):
+        """Frame-only cut: fresh values of the same kind for everything the loop body may write."""
+        from .vecs import SV, fresh_vec
+        c = self.c
+        out = {}
+
+        def fresh_like(nm, v):
+            if isinstance(v, SV):
+                return fresh_vec(nm, v.n, kind=v.kind) if v.dense() else None
+            if isinstance(v, SF):
+                return SF.fresh(nm)
+            if isinstance(v, SI) or (isinstance(v, int) and not isinstance(v, bool)):
+                return SI(z3.Int(c.fresh_name(nm)))
+            if isinstance(v, (SB, bool)):
+                return SB(z3.Bool(c.fresh_name(nm)))
+            if isinstance(v, float):
+                return SF.fresh(nm)
+            if hasattr(v, "_vcx_fresh_like"):
+                return v._vcx_fresh_like(nm)
+            return None
+        for nm in inplace:
+            v = env.get(nm)
+            if isinstance(v, SV):
+                f = fresh_vec(nm, v.n, kind=v.kind)
+                if not v.dense():
+                    raise Unsupported("frame havoc of a compressed vector")
+                v._write(f.at)
+            elif hasattr(v, "_vcx_havoc_inplace"):
+                v._vcx_havoc_inplace()
+        for nm in mods:
+            if nm in inplace and isinstance(env.get(nm), SV):
+                continue            # written in place: same object, already havocked
+            if nm in env:
+                f = fresh_like(nm, env[nm])
+                if f is not None:
+                    out[nm] = f
+                elif env[nm] is not None and not callable(env[nm]):
+                    raise Unsupported(f"frame havoc: no fresh value for {nm} of type {type(env[nm]).__name__}")
+        extra = getattr(self.spec, "after_havoc", None)
+        if extra:
+            extra(self, env, out)
+        return out
+
 
 def make_vcx_loop(specs):
     def vcx_loop(lid, mods):
